@@ -108,9 +108,23 @@ type Outcome struct {
 
 // Execute runs profile p with tapes t. Harness errors are returned, not
 // reported as violations.
+// ExecWall is the wall-clock watchdog for a single execution (forward runs,
+// minimiser candidates and replays alike): exceeding it dumps all goroutines
+// and exits 2 - never a VIOLATION.
+var ExecWall time.Duration
+
 func Execute(ch *Check, p *Profile, tier string, t *Tapes, keepLog bool) (out Outcome) {
 	c := newRunCtx(ch.Prop, p.Name, tier, t, keepLog)
 	out.Ctx = c
+	if ExecWall > 0 {
+		wd := time.AfterFunc(ExecWall, func() {
+			buf := make([]byte, 1<<20)
+			n := runtime.Stack(buf, true)
+			fmt.Fprintf(os.Stderr, "WATCHDOG: property=%s profile=%s: one execution exceeded %v\n%s\n", ch.Prop, p.Name, ExecWall, buf[:n])
+			os.Exit(2)
+		})
+		defer wd.Stop()
+	}
 	defer func() {
 		if r := recover(); r != nil {
 			if he, ok := r.(HarnessError); ok {
@@ -435,7 +449,7 @@ func RunBatch(o BatchOpts) int {
 		res.Violations = append(res.Violations, v)
 		// minimise and write the replay file
 		orig := t.Data()
-		maxExec, budget := 600, 60*time.Second
+		maxExec, budget := 500, 30*time.Second
 		if p.Prologue {
 			maxExec, budget = 0, 0
 		}
@@ -496,7 +510,7 @@ func RunBatch(o BatchOpts) int {
 		if !runOne(p, idx, runSeed) {
 			break
 		}
-		if len(res.Violations) >= 5 {
+		if len(res.Violations) >= 2 {
 			break
 		}
 	}
